@@ -12,17 +12,21 @@ from ..engine.stubs import log_of, recorder, stub, record_class, run_method
 
 PROP = "C13"
 EXPLANATION = (
-    "Static rules over containers/bar.py on abstract Bar objects whose beat, length and note values are symbolic "
-    "rational functions: place_notes is evaluated on every path (accepted: exactly one entry [old current beat, "
-    "value, normalised content] appended and the beat advanced by exactly 1/value; refused: no attribute or list "
-    "changed, False returned); the accepting comparison itself is inspected (operands = beat + 1/value against the "
-    "length, 'length == 0' escape, and a tolerance that is larger than accumulated float error but smaller than "
-    "the smallest gap between distinct totals, i.e. the float gate decides like exact rational arithmetic); "
-    "remove_last_entry is the inverse (subtracts 1/value of the last entry, drops exactly it); set_meter, "
-    "space_left, value_left, '+', is_full, __setitem__, place_notes_at, empty are evaluated against their formulas.")
+    "Static rules over containers/bar.py. (1) One placement on an abstract Bar that is consistent with itself (one entry "
+    "of symbolic value v0, current beat 1/v0, symbolic length and new value, all rational functions): accepted -- "
+    "exactly one entry [total of the lengths before it, value, normalised content] appended and the beat advanced by "
+    "1/value; refused -- nothing changed, False returned; the accepting comparison is total <= length, exactly or with a "
+    "float tolerance that is larger than accumulated rounding error and smaller than the smallest gap between distinct "
+    "totals; only the (0, 0) meter is unbounded. (2) Placement histories evaluated on the real Bar / NoteContainer / Note "
+    "code with the float values of the documented vocabulary (triplets, quintuplets, septuplets, dotted values; five "
+    "meters), compared with an exact Fraction model: acceptance, every start beat, the current beat, current beat + space "
+    "left, is_full, refusals that change nothing, an entry found again at its exact beat, remove-then-place, and index "
+    "assignment taking every form placement takes. (3) remove_last_entry, set_meter, space_left, value_left, '+', "
+    "is_full, __setitem__, place_notes_at, empty evaluated against their formulas.")
 TRUSTED = ["CPython ast module", "mingus_static abstract evaluator + rational-function domain", "C09 (valid_beat_duration)"]
-NOT_DECIDED = ("cumulative floating-point drift over very long histories (the tolerance bound assumes fewer than ~10^5 "
-               "entries per bar); change_note_duration (outside the statement)")
+NOT_DECIDED = ("histories beyond the ten fills and the forms battery of R-C13-7 are covered only through the one-placement rules "
+               "(an implementation that goes wrong after the Nth entry for some N not among the fills is not seen); "
+               "change_note_duration (outside the statement)")
 
 BAR, NC = "mingus.containers.bar", "mingus.containers.note_container"
 TOL_MIN, TOL_MAX = Fraction(1, 10 ** 12), Fraction(1, 10 ** 5)
